@@ -74,6 +74,7 @@ fn op_strategy(n: u8) -> impl Strategy<Value = Op> {
         2 => (0..n).prop_map(|a| Op::Remove { a }),
         4 => (0..n, prio).prop_map(|(a, prio)| Op::SetPriority { a, prio }),
         1 => Just(Op::Clear),
+        2 => (proptest::collection::vec((0..n, (0usize..chain::PRIOS.len()).prop_map(|i| chain::PRIOS[i])), 1..=3), prop_oneof![2 => Just(255u8), 1 => 0u8..4]).prop_map(|(items, bad)| Op::AddBatch { items, bad }),
     ]
 }
 
@@ -139,7 +140,7 @@ fn exhaustive_histories(check: &Check) {
                         let mut r = idx - offsets[l];
                         let mut ops = vec![];
                         for _ in 0..l {
-                            ops.push(alpha[(r % n) as usize]);
+                            ops.push(alpha[(r % n) as usize].clone());
                             r /= n;
                         }
                         let rep = chain::run_history(&prep, &ops, 7, 0, true);
